@@ -11,25 +11,26 @@
 (***************************************************************************)
 EXTENDS Rapid
 
-CONSTANTS MaxCalls, MaxInv, MaxExits, MaxTimers, MaxShutdowns, RaceTimer,
+CONSTANTS MaxCalls, MaxInv, MaxExits, MaxTimers, MaxShutdowns, MaxRestores, RaceTimer,
           ExtSubs,       \* subscription sets an external extension may register with
           IntNames,      \* names of internal extensions that may register
           Misuse,        \* BOOLEAN: also stale / unknown ids, init/error, second registrations
           PromptHelpers  \* BOOLEAN: the helper goroutines of Server.Invoke take their enabled steps before a
                          \* reset goroutine takes its next one (they are woken by channel sends and do no I/O)
 
-VARIABLES nexit, ntimer, nshut
+VARIABLES nexit, ntimer, nshut, nrest
 
 MCExtOrder == <<"e1">>
 MCExtSubs == {{"INVOKE"}, {"INVOKE", "SHUTDOWN"}}
 
-mcvars == <<st, nexit, ntimer, nshut>>
+mcvars == <<st, nexit, ntimer, nshut, nrest>>
 
 Files == ExtUniverse
 
-MCInit == st = State0(Files, {}) /\ nexit = 0 /\ ntimer = 0 /\ nshut = 0
+\* snapshot (init-caching) mode iff restores are part of the configuration
+MCInit == st = [State0(Files, {}) EXCEPT !.caching = (MaxRestores > 0)] /\ nexit = 0 /\ ntimer = 0 /\ nshut = 0 /\ nrest = 0
 
-Quiet == ~Urgent(st)
+Quiet == ~Urgent(st) /\ ~RestoreReturnEn(st)      \* (the answer of a restore request is returned at once)
 
 \* ---- environment: API calls
 NewRt(api, id, body) == [NewCall("rt", api) EXCEPT !.id = id, !.body = body]
@@ -38,6 +39,7 @@ LiveInvs == {k \in DOMAIN st.iv : st.iv[k].m # "gone"}
 
 RtCalls ==
     {NewCall("rt", "next")}
+    \cup (IF MaxRestores > 0 THEN {NewCall("rt", "restorenext"), [NewCall("rt", "restoreerror") EXCEPT !.et = "Runtime.Hook"]} ELSE {})
     \cup {NewRt("response", k, <<"r", "ok">>) : k \in (IF st.srv.inv # 0 THEN {st.srv.inv} ELSE {})}
     \cup {NewRt("error", k, <<"r", "err">>) : k \in (IF st.srv.inv # 0 THEN {st.srv.inv} ELSE {})}
     \cup (IF Misuse THEN {NewRt("response", k, <<"r", "stale">>) : k \in {j \in DOMAIN st.iv : j # st.srv.inv}}
@@ -66,30 +68,30 @@ Issue ==
     /\ \E call \in RtCalls \cup AgentCalls :
          /\ ~Busy(call.who) /\ CanCall(call.who)
          /\ st' = IssueDo(st, st.ncalls + 1, call)
-    /\ UNCHANGED <<nexit, ntimer, nshut>>
+    /\ UNCHANGED <<nexit, ntimer, nshut, nrest>>
 
 Return ==
     /\ \E c \in DOMAIN st.calls : ReturnEn(st, c) /\ st' = ReturnDo(st, c)
-    /\ UNCHANGED <<nexit, ntimer, nshut>>
+    /\ UNCHANGED <<nexit, ntimer, nshut, nrest>>
 
 \* ---- environment: callers, platform
-PlatformInit == Quiet /\ StartInitEn(st) /\ st' = StartInitDo(st) /\ UNCHANGED <<nexit, ntimer, nshut>>
+PlatformInit == Quiet /\ StartInitEn(st) /\ st' = StartInitDo(st) /\ UNCHANGED <<nexit, ntimer, nshut, nrest>>
 
 \* (the front end calls Invoke only after Init has returned: FrontEnd!InvokeAfterInit)
 Invoke ==
     /\ Quiet /\ st.ninv < MaxInv /\ st.srv.initOut # "unset"
     /\ \E c \in Callers : CallerStartEn(st, c) /\ st' = CallerStartDo(st, c, st.ninv + 1, FALSE)
-    /\ UNCHANGED <<nexit, ntimer, nshut>>
+    /\ UNCHANGED <<nexit, ntimer, nshut, nrest>>
 
 InvokeReturns ==
     /\ \E c \in Callers : CallerReturnEn(st, c) /\ st' = CallerReturnDo(st, c)
-    /\ UNCHANGED <<nexit, ntimer, nshut>>
+    /\ UNCHANGED <<nexit, ntimer, nshut, nrest>>
 
 \* ---- environment: processes and timers
 Exit ==
     /\ Quiet /\ nexit < MaxExits
     /\ \E p \in DOMAIN st.procs : ProcExitEn(st, p) /\ st' = ProcExitDo(st, p)
-    /\ nexit' = nexit + 1 /\ UNCHANGED <<ntimer, nshut>>
+    /\ nexit' = nexit + 1 /\ UNCHANGED <<ntimer, nshut, nrest>>
 
 \* processes die when asked to (exit on TERM); the supervisor then sends the event
 Supervisor ==
@@ -101,19 +103,31 @@ Supervisor ==
        \/ \E p \in st.pcS.todo : ShutAgentKillEn(st, p) /\ p \in st.shutAwait /\ Quiet /\ st' = ShutAgentKillDo(st, p)
        \/ LaunchExtEn(st) /\ st' = LaunchExtDo(st)
        \/ LaunchRuntimeEn(st) /\ st' = LaunchRuntimeDo(st)
-    /\ UNCHANGED <<nexit, ntimer, nshut>>
+    /\ UNCHANGED <<nexit, ntimer, nshut, nrest>>
 
 Timer ==
     /\ ntimer < MaxTimers
     /\ (RaceTimer \/ Quiet)
     /\ \E k \in DOMAIN st.iv : MainTimeoutEn(st, k) /\ st' = MainTimeoutDo(st, k)
-    /\ ntimer' = ntimer + 1 /\ UNCHANGED <<nexit, nshut>>
+    /\ ntimer' = ntimer + 1 /\ UNCHANGED <<nexit, nshut, nrest>>
 
 \* the platform driver shuts the environment down (Server.Shutdown)
 DrvShutdown ==
     /\ Quiet /\ nshut < MaxShutdowns /\ DriverShutdownEn(st)
     /\ st' = DriverShutdownDo(st)
-    /\ nshut' = nshut + 1 /\ UNCHANGED <<nexit, ntimer>>
+    /\ nshut' = nshut + 1 /\ UNCHANGED <<nexit, ntimer, nrest>>
+
+\* the platform restores a snapshot (Server.Restore): new credentials, restore hooks of the runtime
+DrvRestore ==
+    /\ Quiet /\ nrest < MaxRestores /\ st.srv.initOut # "unset" /\ RestoreBeginEn(st)
+    /\ st' = RestoreBeginDo(st, IF nrest = 0 THEN "A" ELSE "B", 0)
+    /\ nrest' = nrest + 1 /\ UNCHANGED <<nexit, ntimer, nshut>>
+
+\* the hook deadline (a timer): only when the emulator has nothing else to do
+RestoreTimer ==
+    /\ Quiet /\ ntimer < MaxTimers /\ RestoreTimeoutEn(st)
+    /\ st' = RestoreTimeoutDo(st)
+    /\ ntimer' = ntimer + 1 /\ UNCHANGED <<nexit, nshut, nrest>>
 
 \* ---- the emulator's internal steps (same list as Trace_Rapid!Internal)
 Step(en, do) == en /\ st' = do
@@ -173,6 +187,8 @@ OtherInternal ==
        \/ \E p \in st.pcS.todo : Step(ShutAgentExitedEn(st, p), ShutAgentExitedDo(st, p))
        \/ Step(ResetMayStep /\ ShutAgentsJoinedEn(st), ShutAgentsJoinedDo(st))
        \/ Step(ResetMayStep /\ ShutReapedEn(st), ShutReapedDo(st))
+       \/ Step(RestoreAwaitEn(st), RestoreAwaitDo(st))
+       \/ Step(RestoreReturnEn(st), RestoreReturnDo(st))
        \/ \E p \in DOMAIN st.procs : Step(WatchRecvEn(st, p), WatchRecvDo(st, p))
        \/ Step(WatchHandleEn(st), WatchHandleDo(st))
        \/ Step(WatchCancelEn(st), WatchCancelDo(st))
@@ -185,16 +201,16 @@ OtherInternal ==
 EffectPending == \E c \in DOMAIN st.calls : EffectEn(st, c)
 
 Internal ==
-    /\ UNCHANGED <<nexit, ntimer, nshut>>
+    /\ UNCHANGED <<nexit, ntimer, nshut, nrest>>
     /\ \/ \E c \in DOMAIN st.calls : Step(EffectEn(st, c), EffectDo(st, c))
        \/ ~(PromptHelpers /\ EffectPending) /\ OtherInternal
 
-MCNext == DrvShutdown \/ PlatformInit \/ Issue \/ Return \/ Invoke \/ InvokeReturns \/ Exit \/ Supervisor \/ Timer \/ Internal
+MCNext == DrvRestore \/ RestoreTimer \/ DrvShutdown \/ PlatformInit \/ Issue \/ Return \/ Invoke \/ InvokeReturns \/ Exit \/ Supervisor \/ Timer \/ Internal
 
 MCSpec == MCInit /\ [][MCNext]_mcvars
 
 \* history variables do not distinguish states
-View == <<[st EXCEPT !.tel = <<>>], nexit, ntimer, nshut>>
+View == <<[st EXCEPT !.tel = <<>>], nexit, ntimer, nshut, nrest>>
 
 ----------------------------------------------------------------------------
 (* the properties (Rapid!PropHolds) as invariants *)
@@ -207,6 +223,7 @@ StreamOwnerIsReserver == PropHolds(st).StreamOwnerIsReserver
 OkHasBody == PropHolds(st).OkHasBody
 ResetIsFresh == PropHolds(st).ResetIsFresh
 EventsOnlyToSubscribers == PropHolds(st).EventsOnlyToSubscribers
+RestoreOkOnlyAfterHook == PropHolds(st).RestoreOkOnlyAfterHook
 \* state constraints that cut off the behaviours of the recorded findings (lib/mcrapid.py)
 NoDoubleReset == \A k \in DOMAIN st.iv : ~(<<k, "T">> \in DOMAIN st.rs /\ <<k, "F">> \in DOMAIN st.rs)
 KnownFindingsCutOff == NoGhostInvoke /\ NoDoubleReset
